@@ -98,6 +98,7 @@ class State:
         self.retref = []          # per inlined call: does the callee return a reference
         self.rangecopy = {}       # local vector V -> caller's range R: V was filled, in order, with one (r, nullopt) per element r of R
         self.refs = {}            # reference member of a local helper object -> the location it was bound to by the constructor
+        self.captures = {}        # init-capture variable of a lambda -> its binding (outlives the function that created the lambda)
         self.objs = []            # (scope_depth, number of guards declared before it, object loc, record name): locals whose destructor does work
 
     def clone(self):
@@ -119,6 +120,7 @@ class State:
         s.retref = list(self.retref)
         s.rangecopy = dict(getattr(self, 'rangecopy', {}))
         s.refs = dict(getattr(self, 'refs', {}))
+        s.captures = dict(getattr(self, 'captures', {}))
         s.objs = list(getattr(self, 'objs', []))
         s.this_obj = list(getattr(self, 'this_obj', []))
         return s
@@ -629,6 +631,8 @@ class Evaluator:
         rk = r.get('kind')
         if rk in ('VarDecl', 'ParmVarDecl', 'BindingDecl', 'DecompositionDecl'):
             b = st.env.get(r['id'])
+            if b is None and rk == 'VarDecl':
+                b = getattr(st, 'captures', {}).get(r['id'])
             if b is not None:
                 yield st, b
                 return
@@ -1068,7 +1072,11 @@ class Evaluator:
         body = next((c for c in n.get('inner', []) if isinstance(c, dict) and c.get('kind') == 'CompoundStmt'), None)
         if inits and body is not None:
             unbound = []
+            declared_inside = set(x.get('id') for x in _walk_nodes(body) if x.get('kind') in ('VarDecl', 'BindingDecl', 'DecompositionDecl'))
+            declared_inside |= set(p.get('id') for p in ops_[0].get('inner', []) if p.get('kind') == 'ParmVarDecl')
             for x in _walk_nodes(body):
+                if x.get('kind') == 'DeclRefExpr' and (x.get('referencedDecl') or {}).get('id') in declared_inside:
+                    continue
                 if x.get('kind') == 'DeclRefExpr':
                     rd = x.get('referencedDecl') or {}
                     if rd.get('kind') == 'VarDecl' and rd.get('id') not in st.env and rd.get('id') not in [u.get('id') for u in unbound] \
@@ -1082,11 +1090,20 @@ class Evaluator:
                     # pair by type where that is unambiguous, else by order
                     cand = [u for u in unbound if (u.get('type') or {}).get('qualType') == (inits[i].get('type') or {}).get('qualType')]
                     u = cand[0] if len(cand) == 1 else unbound[i]
+                    if ((u.get('type') or {}).get('qualType') or '').rstrip().endswith('&') and inits[i].get('valueCategory') == 'lvalue':
+                        # `[&end = m_mru_end]`: a reference init-capture is another name for the thing itself
+                        for st2, t in list(self.eval(inits[i], st))[:1]:
+                            st2.env[u['id']] = t
+                            st2.captures[u['id']] = t
+                            yield from go(i + 1, st2)
+                        return
                     outs = list(self.rv(inits[i], st)) if inits[i].get('valueCategory') != 'prvalue' else list(self.eval(inits[i], st))
                     for st2, t in outs[:1]:
                         loc = ('var', u.get('name'), u.get('id'))
                         st2.store[loc] = t
                         st2.env[u['id']] = loc
+                        st2.captures[u['id']] = loc
+                        st2.ev('lwr', loc, t, site_of(n, st2), 'decl')       # like `const auto size_before = ...;` at this point
                         yield from go(i + 1, st2)
                 for st2 in go(0, st):
                     yield st2, ('lambda', ops_[0]['id'])
@@ -1689,6 +1706,17 @@ class Evaluator:
         base = callee['inner'][0]
         mid = callee.get('referencedMemberDecl')
         sb = self.strip(base)
+        if sb.get('kind') == 'CXXThisExpr' and getattr(st, 'this_obj', None) and st.this_obj[-1] is not None and mid not in self.cm.by_id:
+            # a member function of a nested helper class calling another member of its own (`refresh()` -> `is_newest_in()`)
+            for rec2 in list(self.cm.records.values()) + [r for rs in getattr(self.prog, 'helper_specs', {}).values() for r in rs]:
+                if mid in getattr(rec2, 'methods', {}):
+                    if mid not in self.ctx.lambdas:
+                        lm = LambdaMethod(rec2.methods[mid], '%s::%s' % (self.cm.name, rec2.name))
+                        lm.name = name
+                        lm.qname = '%s::%s::%s' % (self.cm.name, rec2.name, name)
+                        self.ctx.lambdas[mid] = lm
+                    yield from self.inline(self.ctx.lambdas[mid], args, n, st, this_obj=st.this_obj[-1])
+                    return
         if sb.get('kind') == 'CXXThisExpr':
             m = self.cm.by_id.get(mid)
             if m is None:
@@ -2340,21 +2368,44 @@ class Evaluator:
         if len(init) != 1:
             return None
         ce = init[0]
-        while ce.get('kind') in ('ExprWithCleanups', 'CXXBindTemporaryExpr', 'MaterializeTemporaryExpr'):
+        while ce.get('kind') in ('ExprWithCleanups', 'CXXBindTemporaryExpr', 'MaterializeTemporaryExpr') or \
+                (ce.get('kind') == 'ImplicitCastExpr' and ce.get('castKind') == 'NoOp'):
             sub = [c for c in ce.get('inner', []) if isinstance(c, dict) and c.get('kind')]
             if len(sub) != 1:
                 return None
             ce = sub[0]
-        if ce.get('kind') not in ('CXXConstructExpr', 'CXXTemporaryObjectExpr'):
+        if ce.get('kind') in ('CallExpr', 'CXXMemberCallExpr'):
+            # `auto g = detail::on_leave(f);` / `auto g = recount_on_leave();`: a factory of the library returns the guard by value
+            # (constructed in place by the return statement, through any number of such factories)
+            outs = list(self.rv(ce, st.clone()))
+            if len(outs) != 1:
+                return None
+            st2, val = outs[0]
+            if not (isinstance(val, tuple) and val[:1] == ('ctor',) and len(val) == 3):
+                # scope_exit<F>{std::move(f)} written as a functional cast evaluates to its single argument
+                val = ('ctor', None, (val,))
+            st.trace, st.store, st.env = st2.trace, st2.store, st.env
+            st.captures = st2.captures
+            args = []
+            for vterm in val[2]:
+                tmp = ('var', '$arg', st.fresh())
+                st.store[tmp] = vterm
+                args.append(('TERM', tmp))
+            ce = {'ctorType': {}, 'kind': 'CXXConstructExpr'}
+        elif ce.get('kind') not in ('CXXConstructExpr', 'CXXTemporaryObjectExpr'):
             return None
-        args = [c for c in ce.get('inner', []) if isinstance(c, dict) and c.get('kind')]
+        else:
+            args = [c for c in ce.get('inner', []) if isinstance(c, dict) and c.get('kind')]
         ctors = [c for c in rec.node.get('inner', []) if c.get('kind') == 'CXXConstructorDecl' and not c.get('isImplicit')
                  and not c.get('explicitlyDeleted')]
         cands = []
         for c in ctors:
             ps = [p for p in c.get('inner', []) if p.get('kind') == 'ParmVarDecl']
             need = len([p for p in ps if not [x for x in p.get('inner', []) if isinstance(x, dict) and x.get('kind') and not x['kind'].endswith('Comment')]])
-            if need <= len(args) <= len(ps) and (c.get('type', {}).get('qualType') == ce.get('ctorType', {}).get('qualType') or len(ctors) == 1):
+            if need <= len(args) <= len(ps) and (c.get('type', {}).get('qualType') == ce.get('ctorType', {}).get('qualType') or len(ctors) == 1
+                                                 or not ce.get('ctorType')):
+                if not ce.get('ctorType') and len(ps) == 1 and rec.name and re.search(r'\b%s\b' % re.escape(str(rec.name)), (ps[0].get('type') or {}).get('qualType') or ''):
+                    continue        # copy / move constructor
                 cands.append(c)
         if len(cands) != 1:
             return None
